@@ -116,6 +116,14 @@ def adversarial(name, p):
         elem = [b"s", b"u", b"t", b"a", b"z\xfb"][n % 5]
         body = elem + (i32(-5 - n % 7) if not elem.startswith(b"z") else b"")
         return [b"(", b"[", b"<"][n % 3] + i32(p["count"]) + body + b"N" * 8
+    if name == "float-text-long-digits":
+        # a text float that is ALMOST a number: a long digit run and one junk byte (validators with nested quantifiers)
+        k = max(20, min(n if n > 0 else 48, 250))
+        body = [b"1" * k + b"x", b"1." * (k // 2) + b"x", b"9" * (k - 4) + b"e5_x", b"-" + b"0" * (k - 1) + b"."][p.get("count", 0) % 4][:255]
+        return b"(" + i32(2) + b"f" + bytes([len(body)]) + body + b"x" + bytes([len(body)]) + body + bytes([len(body)]) + body
+    if name == "many-interned-strings":
+        m = max(1, min(n, 200000))
+        return b"(" + i32(m) + b"".join(b"t" + i32(5) + (b"%05d" % j) for j in range(m))
     if name == "negative-length-string":
         return [b"s", b"u", b"t", b"a", b"A", b"l"][n % 6] + i32(-1 - n)
     if name == "float-text-garbage":
@@ -160,7 +168,7 @@ ADV_NAMES = ["tuple-count-lies", "list-count-lies", "set-count-lies", "many-tiny
              "dict-no-terminator", "code-with-garbage-fields", "stringref-out-of-range", "unhashable-in-set",
              "null-in-odd-places", "float-text-garbage", "negative-length-in-big-container", "negative-length-string", "dropbox-encrypted", "list-containing-itself", "dict-containing-itself", "tuple-dag",
              "tuple-dag-in-set", "tuple-dag-as-dict-key", "tuple-dag-in-code-consts", "tuple-dag-in-code-names",
-             "many-elements-in-frozenset", "many-elements-in-set", "many-keys-in-dict"]
+             "many-elements-in-frozenset", "many-elements-in-set", "many-keys-in-dict", "float-text-long-digits", "many-interned-strings"]
 
 
 class C11:
@@ -242,6 +250,11 @@ class C11:
         for name in ("many-elements-in-frozenset", "many-elements-in-set", "many-keys-in-dict"):
             for v in ("3.8", "2.7"):
                 yield {"t": "adv", "name": name, "v": v, "count": 0, "n": 150000 if ctx.tier == "quick" else 400000, "host": "3.12"}
+        for cnt in range(4):
+            for v in ("2.7", "2.5", "3.8"):
+                yield {"t": "adv", "name": "float-text-long-digits", "v": v, "count": cnt, "n": 60, "host": "3.12"}
+        for v in ("2.7", "2.5"):
+            yield {"t": "adv", "name": "many-interned-strings", "v": v, "count": 0, "n": 100000, "host": "3.12"}
         # correctly encrypted Dropbox files around drawn code bytes / hostile constants: every inner variant, several code strings
         for n in range(0, 28):
             yield {"t": "adv", "name": "dropbox-encrypted", "v": "2.5", "count": [5, 0x7fffffff, 0, -3 % (2 ** 32)][n % 4], "n": n, "host": "3.12"}
